@@ -11,6 +11,22 @@ RULE = ("hash_to_exp on byte strings of length 0..300 (block boundaries 111,112,
         "changes the implementation's challenge, per-index challenges pairwise distinct")
 
 
+def ref_map_bytes(entries):
+    """borsh of HashMap<String, Vec<u8>>: u32 count, then (key, value) pairs sorted by key, each length-prefixed."""
+    import struct
+    out = struct.pack("<I", len(entries))
+    for k in sorted(entries):
+        out += wire.vec_u8(k) + wire.vec_u8(entries[k])
+    return out
+
+
+def ref_challenge(ctx, entries):
+    """the documented Fiat-Shamir challenge: SHA-512 of the sorted-map encoding, as an integer (LE num-bigint, BE malachite) mod q"""
+    import hashlib
+    P_, q_, g_ = pq(ctx)
+    return int.from_bytes(hashlib.sha512(ref_map_bytes(entries)).digest(), "little" if ctx[0] == "B" else "big") % q_
+
+
 def run(env):
     r = env.rng
     items = []
@@ -35,6 +51,20 @@ def run(env):
     pert = []
     for c, o in zip(st, so):
         a = c["args"]; ctx = c["ctx"]; P_, q_, g_ = pq(ctx)
+        # independent recomputation with hashlib (a failing input when the implementation departs from the documented transcript)
+        if isinstance(o, list) and isinstance(o[0], list):
+            fl = ctx[0]; E_ = lambda v: wire.ser_int(fl, int(v)); lab = wire.unhx(a[5] if c["op"] == "cp_prove" else a[3])
+            if c["op"] == "schnorr_prove":
+                want = ref_challenge(ctx, {b"g": E_(g_), b"public": E_(a[1]), b"commitment": E_(o[0][0]), b"context": ref_map_bytes({b"label": lab})}); got = o[0][1]
+            elif c["op"] == "cp_prove":
+                want = ref_challenge(ctx, {b"g1": E_(g_), b"g2": E_(a[4]), b"public1": E_(a[1]), b"public2": E_(a[2]), b"commitment1": E_(o[0][0]),
+                                           b"commitment2": E_(o[0][1]), b"context": ref_map_bytes({b"label": lab})}); got = o[0][2]
+            else:
+                want = ref_challenge(ctx, {b"g": E_(g_), b"public": E_(a[2]), b"commitment": E_(o[0][0]),
+                                           b"context": ref_map_bytes({b"label": wire.vec_u8(lab), b"mhr": E_(a[1])})}); got = o[0][1]
+            if str(want) != str(got):
+                env.violation("%s challenge on %s is not SHA-512 of the documented transcript reduced mod q: proof carries %s, reference %s" % (c["op"], ctx, str(got)[:40], str(want)[:40]),
+                              {"kind": "battery", "case": c, "out": o[0], "reference_challenge": str(want)})
         if c["op"] == "schnorr_prove":
             items.append((c, ctx, "schnorr_prove_r", a[:4] + o[1][:1], o[0]))
             # same nonce, one statement item changed => different challenge (observed on the implementation)
